@@ -169,6 +169,19 @@ func c11Run(c *vk.Ctx, i int) {
 			return ids
 		}
 		rdir.Observe = monitor.observe
+		if i%6 == 5 {
+			// one transient I/O error on a snapshot write: the retention invariant must hold across it
+			// (a commit that never reached the disk must not count as one of the N retained ones)
+			var nSnp int64
+			at := int64(3 + i%5)
+			rdir.Fault = func(opIndex int, p mon.Point) *mon.FaultSpec {
+				if p.Name == "persist" && p.Kind == ".snp" && atomic.AddInt64(&nSnp, 1) == at {
+					c.Event("transient_snapshot_write_errors_injected", 1)
+					return &mon.FaultSpec{Err: errInjected, AfterBytes: -1}
+				}
+				return nil
+			}
+		}
 		jr := rand.New(rand.NewSource(int64(i) * 7919))
 		var jmu sync.Mutex
 		rdir.Gate = func(p mon.Point) {
@@ -218,7 +231,11 @@ func c11Run(c *vk.Ctx, i int) {
 			probeSecond(fmt.Sprintf("before batch %d", bi))
 		}
 		if err := ww.Batch(b.ToBluge()); err != nil {
-			c.Violate("batch-error-after-refused-second-writer", fmt.Sprintf("config %s: batch %d: %v", cfgName, bi, err), nil)
+			if i%6 == 5 && strings.Contains(err.Error(), errInjected.Error()) {
+				c.Event("batches_reporting_the_injected_error", 1) // applied, its persist failed once
+			} else {
+				c.Violate("batch-error-after-refused-second-writer", fmt.Sprintf("config %s: batch %d: %v", cfgName, bi, err), nil)
+			}
 		}
 		cur = cur.Apply(b)
 		if bi%7 == 3 {
